@@ -191,7 +191,10 @@ class C14(Check):
                     r = D.parafac(tl.tensor(X), rank, n_iter_max=k, init=init, tol=0, fixed_modes=list(fixed) if fixed else None,
                                   return_errors=True, **case.get("opts", {}))
                     if isinstance(r, tuple) and len(r) == 2 and isinstance(r[1], list) and not hasattr(r, "weights"):
-                        r = r[0]  # (cp, errors); the all-modes-fixed shortcut returns the bare CP tensor
+                        r = r[0]  # (cp, errors)
+                    else:  # return_errors=True was asked for: a bare decomposition breaks every caller that unpacks the pair
+                        ctx.violation("parafac/return_errors-pair-not-returned/" + ("all-modes-fixed" if all_fixed else "some-modes-free"),
+                                      f"{case}: parafac(..., return_errors=True, fixed_modes={fixed}) returned {type(r).__name__} instead of (decomposition, errors)")
                     return ("cp", r), init
                 if algo == "non_negative_parafac":
                     r = D.non_negative_parafac(tl.tensor(X), rank, n_iter_max=k, init=init, tol=itm.TINY, fixed_modes=list(fixed) if fixed else None)
